@@ -93,8 +93,77 @@ def gen_eofdrop(rng, k):
     return L
 
 
+def gen_supersede(rng, k):
+    """operations that supersede one another on one object: the three accept forms on one
+    acceptor, reads/writes/waits re-issued on one socket, udp receives, timer waits - each
+    started while the previous one is still outstanding; later one peer shows up, then
+    everything is cancelled or closed.  Every handler must run exactly once."""
+    r = rng
+    net = ncommon.Net(r, nnodes=2, bw=r.choice([0, 800000]), lat=r.choice([0, 1000000, 30000000]))
+    L = list(net.lines)
+    ops = ["acc_new 1 1", "tcp_open 1 1", "tcp_bind 1 0 0 1337", "listen 1 10"]
+    H = {}
+    hid = [100]
+    def nh():
+        hid[0] += 1
+        return hid[0]
+    t = 0
+    tid = [30]
+    def at(tm, o):
+        tid[0] += 1
+        h = nh()
+        ops.append("expires_at %d %d" % (tid[0], tm))
+        ops.append("async_wait %d %d" % (tid[0], h))
+        H.setdefault(h, []).extend(o)
+    created = []
+    nacc = r.choice([2, 3, 4, 6])
+    sock = 10
+    for j in range(nacc):
+        form = r.choice(["accept0", "accept1", "accept2"])
+        h = nh()
+        o = []
+        if form == "accept2":
+            sock += 1
+            o.append("accept2 1 %d %d" % (sock, h))
+        else:
+            if created and r.random() < 0.3:
+                s = r.choice(created)
+            else:
+                sock += 1
+                s = sock
+                ops.append("tcp_new %d 1" % s)
+                created.append(s)
+            o.append("accept 1 %d %d %d" % (s, 1 if form == "accept1" else 0, h))
+        if r.random() < 0.6:
+            ops.extend(o)
+        else:
+            t += r.choice([1000, 50000000])
+            at(t, o)
+    # a client shows up late (or never)
+    if r.random() < 0.8:
+        ops.append("tcp_new 50 2")
+        at(t + 1000000000, ["tcp_connect 50 0 %d 1337 %d" % (ncommon.A1, nh())])
+    # udp receives and a timer superseding themselves
+    ops += ["udp_new 70 1", "udp_open 70 1", "udp_bind 70 0 0 7000"]
+    for _ in range(r.choice([1, 2, 3])):
+        ops.append(r.choice(["udp_arecv 70 1 %d : 100", "udp_arecv 70 0 %d : 10", "udp_wait 70 %d"]) % nh())
+    end = r.choice(["acc_close0 1", "tcp_cancel 1", "tcp_close 1", "tcp_destroy 1", None])
+    if end:
+        at(t + 3000000000, [end, r.choice(["udp_cancel 70", "udp_close 70"])])
+    L += ["M " + o for o in ops]
+    for h in sorted(H):
+        L += ["H %d %s" % (h, o) for o in H[h]]
+    L.append("M run")
+    return L
+
+
 def generate(rng, tier):
     n = 50 if tier == "quick" else 1500
+    ns = 20 if tier == "quick" else 400
+    return generate0(rng, tier, n) + [("s%d" % k, gen_supersede(rng, k)) for k in range(ns)]
+
+
+def generate0(rng, tier, n):
     ne = 12 if tier == "quick" else 300
     return [("l%d" % k, gen(rng, k)) for k in range(n)] + [("e%d" % k, gen_eofdrop(rng, k)) for k in range(ne)]
 
@@ -125,6 +194,16 @@ def handler_oracle(lines, trace):
             started.append(("timer", int(op[1]), int(op[2]), e["t"], op[0]))
         elif op[0] == "resolve":
             started.append(("rslv", int(op[1]), int(op[-1]), e["t"], op[0]))
+    # an operation superseded by a later one of its kind on the same object completes (aborted)
+    SUP = {"accept": "acc", "accept2": "acc", "udp_arecv": "udprecv", "udp_wait": "udpwait"}
+    for i, e in enumerate(ev):
+        op = e["op"]
+        if op[0] in SUP:
+            oi, hi = START[op[0]]
+            later = [x for x in ev[i + 1:] if x["op"][0] in SUP and SUP[x["op"][0]] == SUP[op[0]] and x["op"][1] == op[1]]
+            if later and int(op[hi]) not in comp:
+                fails.append(("c04/superseded", "%s (handler %s) on object %s was superseded by %s at t=%d and its handler never ran" % (
+                    op[0], op[hi], op[1], " ".join(later[0]["op"]), later[0]["t"])))
     for e in ev:
         op = e["op"]
         kind = None
